@@ -97,7 +97,8 @@ TRUSTED = [
     'the independent event-stream interpreter (HTML standard 9.2.6) used as the SSE oracle',
 ]
 ASSUMPTIONS = [
-    'status values are valid (int or digit string 100..999, status line "NNN reason", http.HTTPStatus); an invalid numeric status is modelled (ValueError, no start_response) and tied on WSGI only; header names/values the application sets are latin-1 tokens/strings',
+    'status values are valid (int or digit string 100..999, status line "NNN reason", http.HTTPStatus; a bytes status line - accepted by falcon.util.code_to_http_status / http_status_to_code, not named by '
+    'the documentation of Response.status - is swept under the oracles and the Fz correspondence but not the Wg status-line model); an invalid numeric status is modelled (ValueError, no start_response) and tied on WSGI only; header names/values the application sets are latin-1 tokens/strings',
     'falcon.status_codes.HTTP_<n> has the form "<n> <phrase>" (hypothesis TableOk of the status-line theorem; checked on the real module by the oracle status-table)',
     'responders that raise (HTTPError, HTTPStatus, redirects, other exceptions) and the stock error serializer are outside the Lean models: oracle only. Render-time errors are modelled for an arbitrary error handler (a function of the response state); the tie uses generated handlers; with the stock handlers: oracle only',
     'custom response classes overriding render_body(), a Set-Cookie added with append_header: oracle only',
@@ -108,7 +109,19 @@ ASSUMPTIONS = [
     'how streaming ends: KeyboardInterrupt / SystemExit themselves are represented by a server-defined BaseException subclass (asyncio re-raises the two real ones out of the event loop); what leaves the '
     'application after an injected failure may be any of the injected classes (close() raising while another error propagates replaces it; the statement only fixes the close() count and the framing)',
 ]
-RULE = ('[dimension added after seed C05_10: (v) response HEADERS SET BY THE APPLICATION that speak about framing / the connection are an input of every plan (main loop, stream endings, render errors, SSE): '
+RULE = ('[two dimensions added after seeds C05_13 / C05_15: (vi) the STATUS space, exhaustively: a dedicated sweep runs every code 100..599 and 600, 799, 999 in every accepted spelling '
+        '(int, resp.status_code = n, bare code string, status line with a custom reason, the falcon.status_codes line and the http.HTTPStatus member where they exist, a bytes status line) '
+        'with a body source (text / data / media / a stream object / none; quick: one drawn per (code, spelling), HEAD for 10 %; thorough: every source x GET and HEAD) on both stacks; the oracles '
+        'judge by the statement\'s explicit sets (bodiless = exactly 100 / 101 / 204 / 304, typeless = exactly 204 / 304: e.g. 102, 103, 199, 205, 305 carry their body with an exact Content-Length) and a '
+        'new oracle "stacks-agree" compares what the statement fixes (code, body bytes, Content-Length of a non-streamed body, presence of a Content-Type) between WSGI and ASGI; the random plans of every run '
+        'now also draw (14 %) from a wider pool: the other informational codes 102 / 103 / 150 / 199 in all spellings, 203 / 205 / 206 / 303 / 305, 400 / 499 / 599 / 600 / 999; '
+        '(vii) the SHAPE of the stream object: what __iter__ / __aiter__ of an iterable stream returns - the object itself, a separate iterator object without close(), a separate iterator object with a '
+        'close() of its own, or a generator object (__iter__ / __aiter__ written as a (async) generator method) - crossed with close() on the stream object or not (so close() lives on the iterable only, '
+        'on the iterator only, on both, on neither); file-like objects (read + close) that are iterable as well, like real files; close() calls are counted separately on the object the application '
+        'assigned as resp.stream (the statement\'s "its close()": oracle close-once, and the close count of the Fz / Fn / Fc / Wg models) and on the iterator it handed out (shown apart in the '
+        'correspondence: the models never close it); 60 % of the iterable and 30 % of the file-like stream objects of every random plan have such a shape, and the stream-endings run takes the 12 object '
+        'shapes in turn so that every shape meets every ending (completion, the stream raising at every call, send failing at every index, cancellation, close() raising) on both stacks] '
+        '[dimension added after seed C05_10: (v) response HEADERS SET BY THE APPLICATION that speak about framing / the connection are an input of every plan (main loop, stream endings, render errors, SSE): '
         'with probability 0.4 1-3 of Transfer-Encoding (chunked / identity / gzip / "gzip, chunked", half of these plans; sometimes built by two append_header calls), Connection, Content-Encoding, Trailer, TE, Upgrade, Keep-Alive, Content-Range, '
         'each spelled in one of three cases and set by set_header / append_header / set_headers(dict) / set_headers(list of pairs), before or after the other headers; the same headers travel in the `headers` argument of a raised HTTPError / HTTPStatus; '
         'a raised HTTPStatus may carry a body (text=); the explicit Content-Length is now also the RIGHT one for the non-streamed body (40 % of the plans that set one; otherwise 3 / 999 / 7) and is set through resp.content_length, set_header or set_headers; '
@@ -196,6 +209,17 @@ def run(ctx):
     rnd = ctx.rng
     loop = asyncio.new_event_loop()
     CUR = {}
+
+    def gen_plan(rnd, **kw):
+        # every generated plan draws from the wider status pool and from the stream-object shapes (dimensions added after C05_13 / C05_15)
+        return R.gen_plan(rnd, more_statuses=True, shape_ok=True, **kw)
+
+    def closes_of(probe):
+        """The close() observation: calls on the object the application assigned as resp.stream; calls that reached a separate iterator
+        object handed out by its __iter__ / __aiter__ are shown apart (`+Ni`; the models close the assigned object only, so never)."""
+        if probe is None:
+            return 0
+        return probe.closed if not probe.iter_closed else f'{probe.closed}+{probe.iter_closed}i'
 
     def wres():
         class Res:
@@ -297,12 +321,12 @@ def run(ctx):
             # the probe cannot count close() on a generator object: count the server's call on the very object
             closes = rec['closed_iterable'] if rec['returned'] is CUR.get('stream_obj') else 0
         else:
-            closes = probe.closed if probe else 0
+            closes = closes_of(probe)
         return (f"{len(rec['start'])}|{start}|{','.join(R.hx(c) for c in rec['chunks'])}|{1 if rec['iter_exc'] is not None else 0}|"
                 f"{closes}|{rec['closed_iterable']}|{fw}")
 
     def wsgi_case(p, rec, probe, snap, abandon_after):
-        if R.in_model(p) and 'hdr' in snap and not rec.get('hang'):
+        if R.in_model(p) and 'hdr' in snap and not rec.get('hang') and p['status_form'] != 'bytes-line':
             sv, tbl = sv_of(p)
             sess_w.case({'plan': p, 'abandon_after': abandon_after})
             sess_w.op('wsgi ' + R.fz_line(p, snap)[5:] + f" close={1 if has_close_w(p) else 0} sv={sv} tbl={tbl} wc=1 "
@@ -311,7 +335,7 @@ def run(ctx):
     def trace_case(p, rec, probe, snap, send_fail_at):
         if R.in_model(p) and 'hdr' in snap and not rec['hang']:
             sess_t.case({'plan': p, 'send_fail_at': send_fail_at})
-            sess_t.op(R.fzt_line(p, snap, send_fail_at), R.fzt_show(rec['sent'], probe.closed if probe else 0, rec['app_exc'] is not None))
+            sess_t.op(R.fzt_line(p, snap, send_fail_at), R.fzt_show(rec['sent'], closes_of(probe), rec['app_exc'] is not None))
 
     # ------------------------------------------------------------------ one run on one stack
     BASE_ONLY = (asyncio.CancelledError, GeneratorExit, R.ServerStop)
@@ -442,8 +466,8 @@ def run(ctx):
         if not (p['raise'] and p['raise_after_fill']):
             ok = code == fs['expected_status']
             what = None if ok else f'status {code}, expected {fs["expected_status"]}' + (('; wsgi.errors: ' + rec['wsgi.errors'][-600:]) if not asgi and rec.get('wsgi.errors') else '')
-            if ok and not asgi and p['status_form'] in ('line', 'line*') and not p['raise'] and not fs['render_fails']:
-                ok = status_line == p['status']
+            if ok and not asgi and p['status_form'] in ('line', 'line*', 'bytes-line') and not p['raise'] and not fs['render_fails']:
+                ok = status_line == (p['status'].decode('latin-1') if p['status_form'] == 'bytes-line' else p['status'])
                 what = None if ok else f'status line {status_line!r} differs from the one set ({p["status"]!r})'
             ctx.oracle('status', ok, what, case)
 
@@ -551,8 +575,11 @@ def run(ctx):
         if p['raise']:
             begun = False if not p['raise_after_fill'] else begun
         if begun:
+            # the statement's "its close()": the close() of the object the application assigned as resp.stream (probe.closed counts
+            # exactly those calls; a close() on an iterator that object handed out is another method: probe.iter_closed)
             ok = probe.closed == 1
-            ctx.oracle('close-once', ok, None if ok else f'stream.close() called {probe.closed} times after streaming had begun', case)
+            ctx.oracle('close-once', ok, None if ok else f'close() of the object assigned to resp.stream ({shape_name(p["stream"])}) called {probe.closed} times after '
+                       f'streaming had begun (close() calls on the iterator it handed out: {probe.iter_closed})', case)
         else:
             ok = probe.closed <= 1
             ctx.oracle('close-once', ok, None if ok else f'stream.close() called {probe.closed} times', case)
@@ -669,7 +696,7 @@ def run(ctx):
                 f"cookies{sfx}={';'.join(R.hs(c) for c in snap['cookies']) or '.'}")
 
     def gen_rerr(rnd):
-        p = R.gen_plan(rnd, sse_ok=False, errors_ok=False, framing_ok=True)
+        p = gen_plan(rnd, sse_ok=False, errors_ok=False, framing_ok=True)
         p['resp_class'] = rnd.choice(['std', 'std', 'sub'])
         p['extra_set_cookie'] = False
         if rnd.random() < 0.85:
@@ -693,7 +720,7 @@ def run(ctx):
     def gen_rerr2(rnd):
         if rnd.random() < 0.06:
             return 'raise'
-        p2 = R.gen_plan(rnd, sse_ok=False, errors_ok=False, framing_ok=True)
+        p2 = gen_plan(rnd, sse_ok=False, errors_ok=False, framing_ok=True)
         p2['extra_set_cookie'] = False
         r = rnd.random()
         if r < 0.3:      # what the handler leaves cannot be rendered either
@@ -865,7 +892,7 @@ def run(ctx):
                and not _re.fullmatch(k[5:] + r' \S(.*\S)?', getattr(falcon.status_codes, k))]
         ctx.oracle('status-table', not bad, None if not bad else f'falcon.status_codes entries not of the form "<code> <phrase>": {bad}', {'entries': bad})
         for n in (0, 7, 42, 99, 1000, 2000, 65536):
-            p = R.gen_plan(rnd, sse_ok=False, errors_ok=False)
+            p = gen_plan(rnd, sse_ok=False, errors_ok=False)
             p.update(status_form='int', status=n, code=n, resp_class='std', extra_set_cookie=False, media=None, method='GET')
             rec, probe, snap = go_wsgi(p)
             if 'hdr' in snap and not rec.get('hang'):
@@ -873,8 +900,81 @@ def run(ctx):
                 sess_w.op('wsgi ' + R.fz_line(p, snap)[5:] + f" close={1 if has_close_w(p) else 0} sv=c:{n} tbl=none wc=1 ab=-", wsgi_show(p, rec, probe))
             ctx.seen(('bad-status', n), True)
 
+    # ------------------------------------------------------------------ the STATUS space, exhaustively (after seed C05_13)
+    SWEEP_CODES = list(range(100, 600)) + [600, 799, 999]
+    SWEEP_SOURCES = ['none', 'text', 'data', 'media', 'stream']
+
+    def spellings_of(n):
+        """every accepted way to say "status n" on a response: [(form, value)]"""
+        import http
+        out = [('int', n), ('code-prop', n), ('code-str', str(n)), ('line*', '%d Custom Reason' % n), ('bytes-line', b'%d Custom bytes' % n)]
+        ent = getattr(falcon.status_codes, 'HTTP_%d' % n, None)
+        if ent is not None:
+            out.append(('line', ent))
+        if n in http.HTTPStatus._value2member_map_:
+            out.append(('enum', n))
+        return out
+
+    def status_class(n):
+        return ('100_101' if n in (100, 101) else 'other_1xx' if n < 200 else '204_304' if n in (204, 304) else
+                '%dxx' % (n // 100) if n < 600 else 'beyond_599')
+
+    def sweep_plan(n, form, value, source, method):
+        p = gen_plan(rnd, sse_ok=False, errors_ok=False)
+        p.pop('hist', None)
+        p.update(status_form=form, status=value, code=n, method=method, text=None, data=None, media=None, resp_class='std', extra_set_cookie=False)
+        if source != 'stream':
+            p['stream'] = None
+        elif p['stream'] is None:
+            p['stream'] = {'kind': rnd.choice(R.SYNC_KINDS), 'chunks': [rnd.choice(R.CHUNKS) for _ in range(rnd.randint(1, 3))], 'fail': None}
+            R.gen_shape(rnd, p['stream'])
+        if p['stream'] is not None:
+            p['stream']['fail'] = None
+        if source == 'text':
+            p['text'] = rnd.choice(R.TEXTS[:2])
+        elif source == 'data':
+            p['data'] = rnd.choice(R.DATAS[:2])
+        elif source == 'media':
+            p['media'] = rnd.choice(['dict', 'zero', 'list'])
+            if p['ct'] not in (None, 'application/json'):
+                p['ct'] = None
+            p['dflt'] = 'application/json'
+        return p
+
+    def stacks_agree(p, wrec, arec):
+        """Both interfaces are under the same statement: the code the server sees, the body bytes, and - non-HEAD, body-bearing status,
+        non-streamed body - the Content-Length are fixed by it, so they are the same on WSGI and ASGI; so is whether a Content-Type is there."""
+        aresp = H.asgi_response(arec)
+        if wrec.get('hang') or wrec.get('app_exc') is not None or not wrec.get('start') or aresp is None or arec['app_exc'] is not None:
+            return
+        st, hl, _ = wrec['start'][0]
+        code, hs_, chunks = aresp
+        plain = p['method'] != 'HEAD' and p['code'] not in R.BODILESS and R.effective_source(p) != 'stream'
+        pick = lambda c, hl_, body: (c, body, [v for k, v in hl_ if k.lower() == 'content-length'] if plain else None,  # noqa: E731
+                                     any(k.lower() == 'content-type' for k, _ in hl_))
+        W, A = pick(int(st[:3]), hl, b''.join(wrec['chunks'])), pick(code, hs_, b''.join(chunks))
+        ctx.oracle('stacks-agree', W == A, None if W == A else f'(status, body, Content-Length, has Content-Type): WSGI {W!r}, ASGI {A!r}',
+                   {'plan': p})
+
+    def status_sweep():
+        """Every status code 100..599 (+ 600, 799, 999) in every accepted spelling, with a body source, on both stacks - judged by the
+        statement's explicit sets (R.BODILESS = 100/101/204/304, R.TYPELESS = 204/304) in judge(), and the two stacks against each other."""
+        i, k = ctx.shard
+        for n in SWEEP_CODES[i::k]:
+            for form, value in spellings_of(n):
+                # quick: one body source per (code, spelling), a HEAD now and then; thorough: every source, GET and HEAD
+                combos = [(s_, m) for s_ in SWEEP_SOURCES for m in ('GET', 'HEAD')] if not ctx.quick else \
+                    [(rnd.choice(SWEEP_SOURCES[1:] if rnd.random() < 0.85 else SWEEP_SOURCES), 'HEAD' if rnd.random() < 0.1 else rnd.choice(['GET', 'GET', 'POST']))]
+                for source, method in combos:
+                    p = sweep_plan(n, form, value, source, method)
+                    wrec, arec = both(p)
+                    stacks_agree(p, wrec, arec)
+                    ctx.count('sweep_status_' + status_class(n))
+                    ctx.count('sweep_spelling_' + form)
+                    ctx.count('sweep_body_source_' + source + ('_HEAD' if method == 'HEAD' else ''))
+
     # ------------------------------------------------------------------ SSE
-    SSE_STRS = ['', 'x', 'hi thére', 'a: b', ':lead', ' sp', 'tab\there', '日本', 'two\nlines', 'cr\rhere', 'end\n', '0']
+    SSE_STRS =['', 'x', 'hi thére', 'a: b', ':lead', ' sp', 'tab\there', '日本', 'two\nlines', 'cr\rhere', 'end\n', '0']
     SSE_DATAS = [b'', b'raw', b'caf\xc3\xa9', b'\xe2\x82\xac', b'\xf0\x9f\x98\x80', b'\xff', b'\xc0\xaf', b'\xed\xa0\x80', b'\xf4\x90\x80\x80',
                  b'\xe0\x9f\xbf', b'\xc3', b'a\nb', b'\xef\xbf\xbd', b'\xed\x9f\xbf', b'\xf4\x8f\xbf\xbf', b'\xf0\x8f\xbf\xbf', b'\x80']
     SSE_JSON_KEYS = list(R.SSE_JSONS) + ['unserialisable']
@@ -1094,11 +1194,11 @@ def run(ctx):
             sess_s.case({'plan': p, 'send_fail_at': send_fail_at})
             sess_s.op('sse ' + R.fz_line(p, snap)[5:] + f" close={1 if has_close else 0} evs={';'.join(ev_tok(e) for e in p['sse']) or '.'} "
                       f"ef={f(p.get('sse_fail'))} disc={f(p.get('sse_disc'))} xf={f(send_fail_at)}",
-                      R.fzt_show(rec['sent'], probe.closed if probe else 0, rec['app_exc'] is not None))
+                      R.fzt_show(rec['sent'], closes_of(probe), rec['app_exc'] is not None))
 
     def sse_run(n):
         for _ in range(n):
-            p = R.gen_plan(rnd, sse_ok=False, errors_ok=False, framing_ok=True)
+            p = gen_plan(rnd, sse_ok=False, errors_ok=False, framing_ok=True)
             if rnd.random() < 0.7:
                 p['method'] = rnd.choice(['GET', 'GET', 'POST'])
             if rnd.random() < 0.6:
@@ -1146,6 +1246,7 @@ def run(ctx):
         """The evidence table of the two history-like dimensions: how the stream ends, and assignment / render histories."""
         st = p['stream']
         if st is not None:
+            ctx.count('stream_object_shape_' + shape_name(st))
             ctx.count('stream_object_truth_' + str(st.get('truth')))
             ctx.count('stream_object_handed_over_by_' + ('set_stream' if st.get('declared') is not None else 'assignment'))
             na = st.get('none_at')
@@ -1172,9 +1273,16 @@ def run(ctx):
     # ------------------------------------------------------------------ HOW streaming ends (after seed C05_7)
     SEND_CLASSES = ['oserror', 'cancelled', 'generator_exit', 'base']
 
-    def gen_streamed(rnd):
-        """a plan whose body is taken from a stream object with (mostly) a close() method"""
-        p = R.gen_plan(rnd, sse_ok=False, errors_ok=False, none_ok=True, obj_ok=True, framing_ok=True)
+    # every stream OBJECT shape: (kind, shape, also_iter) - close() on the iterable only / on the iterator only / on both / on neither
+    OBJ_SHAPES = ([(k, sh, False) for k in ('iter', 'iter-noclose') for sh in R.SHAPES] +
+                  [(k, None, ai) for k in ('file', 'file-noclose') for ai in (False, True)])
+
+    def shape_name(st):
+        return st['kind'] + ('_' + st['shape'] if st.get('shape') else '') + ('_also_iterable' if st.get('also_iter') else '')
+
+    def gen_streamed(rnd, obj=None):
+        """a plan whose body is taken from a stream object with (mostly) a close() method; obj = its (kind, shape, also_iter)"""
+        p = gen_plan(rnd, sse_ok=False, errors_ok=False, none_ok=True, obj_ok=True, framing_ok=True)
         p.update(text=None, data=None, media=None, resp_class=rnd.choice(['std', 'std', 'sub']), extra_set_cookie=False)
         if rnd.random() < 0.85:
             p['method'] = rnd.choice(['GET', 'GET', 'POST', 'PUT'])
@@ -1184,6 +1292,12 @@ def run(ctx):
         kind = rnd.choice(['file', 'file', 'file', 'iter', 'iter', 'iter', 'file-noclose', 'iter-noclose'])
         ch = [rnd.choice(R.CHUNKS) for _ in range(rnd.randint(0, 4))]
         st = {'kind': kind, 'chunks': ch, 'fail': None, 'none_at': rnd.choice([None, None, None, len(ch)])}
+        if obj is not None:
+            st['kind'] = obj[0]
+            if obj[1] is not None:
+                st['shape'] = obj[1]
+            if obj[2]:
+                st['also_iter'] = True
         if p['stream'] is not None:
             st.update({k: v for k, v in p['stream'].items() if k in ('truth', 'declared')})
             if st.get('declared') is not None:
@@ -1212,7 +1326,7 @@ def run(ctx):
                 if R.in_model(model_plan) and 'hdr' in snap and not rec['hang']:
                     sess_t.case({'plan': q, 'fault': fault})
                     # cf=1: close() itself fails when it is called (Fc.asgiTraceC)
-                    sess_t.op(R.fzt_line(model_plan, snap, mxf) + (' cf=1' if cf else ''), R.fzt_show(rec['sent'], probe.closed if probe else 0, rec['app_exc'] is not None))
+                    sess_t.op(R.fzt_line(model_plan, snap, mxf) + (' cf=1' if cf else ''), R.fzt_show(rec['sent'], closes_of(probe), rec['app_exc'] is not None))
             ctx.seen(('ending-a', json.dumps(q, sort_keys=True, default=repr), tag, xf, send_class, cancel_at_send), True)
             ctx.count('ending_asgi_' + tag)
             return rec
@@ -1225,8 +1339,10 @@ def run(ctx):
             ctx.seen(('ending-w', json.dumps(q, sort_keys=True, default=repr), tag), True)
             ctx.count('ending_wsgi_' + tag)
 
-        for _ in range(n):
-            p = gen_streamed(rnd)
+        for i in range(n):
+            # the object shapes in turn (each shard starts at another one): every shape meets every ending
+            p = gen_streamed(rnd, OBJ_SHAPES[(i + 5 * ctx.shard[0]) % len(OBJ_SHAPES)])
+            ctx.count('ending_plans_stream_object_' + shape_name(p['stream']))
             ncalls = len(R.stream_items(p, True)) + 1          # the call after the last item included
             rec0 = one_asgi(p, p, 'completes')
             one_wsgi(p, p, 'completes')
@@ -1257,6 +1373,7 @@ def run(ctx):
 
     def extra_runs():
         status_run()
+        status_sweep()
         endings_run(ctx.n(160, 3000))
         rerr_run(ctx.n(3000, 40000))
         ser_run(ctx.n(8000, 100000))
@@ -1266,7 +1383,7 @@ def run(ctx):
         if hangs[0] >= 2:
             ctx.notes.append(f'shard {ctx.shard[0]}: stopped after case {ci}: the application repeatedly did not return (reported as oracle failures)')
             break
-        p = R.gen_plan(rnd, hist_ok=True, none_ok=True, obj_ok=True, framing_ok=True)
+        p = gen_plan(rnd, hist_ok=True, none_ok=True, obj_ok=True, framing_ok=True)
         fs = final_state(R, p, False)
         wrec, arec = both(p)
         count_dims(p)
